@@ -35,8 +35,9 @@ pub fn get_num_cells(resolution: i32) -> u64 {
         return 17293822569102705000;
     }
 
-    // For lower resolutions, exact calculation works fine
-    60 * (4_u64.pow((resolution - 1) as u32))
+    // For lower resolutions, exact calculation works fine; beyond the maximum
+    // resolution the count does not fit in 64 bits, so saturate instead of overflowing
+    60_u64.saturating_mul(4_u64.saturating_pow((resolution - 1) as u32))
 }
 
 /// Returns the number of children between two resolutions.
